@@ -410,7 +410,31 @@ func checkC19(r *Result) {
 
 	// the one licence to touch another account's selection: that account is below the minimum
 	checkHasMin(r, "REMOVE-LICENCE")
-	r.minCount("REMOVE-LICENCE", 3)
+	if rs := P.Func("(x/reporter/keeper.msgServer).RemoveSelector"); rs == nil {
+		r.broken("anchor RemoveSelector does not resolve")
+	} else {
+		ps := AnalyzePaths(rs, []Atom{{Name: "hasMin", Stable: true, Cond: func(rel *Term) (bool, bool) {
+			return rel.Op == "ext:0" && len(rel.Args) == 1 && strings.HasSuffix(rel.Args[0].Op, "Keeper).HasMin"), true
+		}}})
+		n := 0
+		for _, cs := range P.CallSitesIn(rs) {
+			if cs.Desc() == "coll:x/reporter/keeper.Keeper.Selectors.Remove" {
+				n++
+				bad := ps.Require(cs.Instr, func(v map[string]bool) bool { return !v["hasMin"] })
+				r.check(len(bad) == 0 && len(ps.Matched["hasMin"]) > 0, "REMOVE-LICENCE", "(x/reporter/keeper.msgServer).RemoveSelector # another account's selection is removed only when HasMin said no", P.Pos(cs.Pos()), fmt.Sprintf("valuations: %v", statesStr(ps, cs.Instr)))
+			}
+		}
+		r.check(n == 1, "REMOVE-LICENCE", "(x/reporter/keeper.msgServer).RemoveSelector # one removal site", P.Pos(rs.Pos()), fmt.Sprint(n))
+		// the minimum asked of the selector is the minimum of the reporter it selected
+		for _, cs := range P.CallSitesIn(rs) {
+			if cs.Callee == "(x/reporter/keeper.Keeper).HasMin" {
+				a, m := NewTermer().Of(Arg(cs.Instr, 1)), NewTermer().Of(Arg(cs.Instr, 2))
+				ok := a.Contains("MsgRemoveSelector.SelectorAddress") && strings.HasPrefix(m.Op, "field:x/reporter/types.OracleReporter.MinTokensRequired") && m.Contains("Selection.Reporter")
+				r.check(ok, "REMOVE-LICENCE", "(x/reporter/keeper.msgServer).RemoveSelector # HasMin is asked about the named selector and its own reporter's minimum", P.Pos(cs.Pos()), "account: "+clip(a.String(), 100)+" ; minimum: "+clip(m.String(), 140))
+			}
+		}
+	}
+	r.minCount("REMOVE-LICENCE", 6)
 	r.minCount("AUTH-GATE", 6)
 	r.minCount("AUTH-WIRING", 6)
 	r.minCount("SIGNER-FRAME", 8)
